@@ -5,7 +5,7 @@ case = {"np": n, "hosts": [host of rank 0, ...], "platform": xml text, "cfg": [-
 Observation points
  * online: ti_prog prints, per rank, the simulated date after every MPI call (%.17g) and the date just before MPI_Finalize;
  * replay: `--log=smpi_replay.thres:verbose` makes the replay tool log every action when it ends; the log layout
-   `R|%a|%.17r|%m` gives the rank (actor name) and the simulated date with 17 decimals.
+   `R|%a|%.22r|%m` gives the rank (actor name) and the simulated date with 22 decimals.
 The k-th traced call of rank r online corresponds to the k-th logged action of rank r in the replay (init and finalize are
 not logged; a wait/test on an already completed request is not traced).
 
@@ -23,7 +23,7 @@ from verif import build, proc
 ABS_TOL = 1e-9
 REL_TOL = 1e-12
 ALIAS = {"sendrecv": "sendRecv", "reducescatterblock": "reducescatter", "gatherz": "gather", "scatterz": "scatter"}
-LOGFMT = "--log=smpi_replay.fmt:R|%a|%.17r|%m%n"
+LOGFMT = "--log=smpi_replay.fmt:R|%a|%.22r|%m%n"
 COMMON = ["--cfg=smpi/simulate-computation:no", "--cfg=smpi/wtime:0", "--log=root.thres:error"]
 
 
